@@ -877,7 +877,7 @@ def check_sequences(groups, seed, st):
         first = {(tuple(case["steps"][0]), f["op"], f["route"], f["sig"], f["s"]) for case, r in res for f in r["fails"] if f["step"] == 0}
         for case, r in res:
             for f in r["fails"]:
-                sig = full_sig(f["op"], f["sig"])
+                sig = full_sig(f["op"].split("[")[0], f["sig"])  # the kind of value is in the case, not in the footprint
                 if f["step"] > 0:
                     if (tuple(case["steps"][f["step"]]), f["op"], f["route"], f["sig"], f["s"]) in first:
                         continue
